@@ -143,7 +143,7 @@ class UnitRun:
                     if inside is not None and tok in ("assume(", "admit("):
                         ident = inside[3]["path"].split("::")[-1]
                     if tok == "assume_specification":
-                        ms = re.search(r"assume_specification\s*\[\s*([^\]]+)\]", code)
+                        ms = re.search(r"assume_specification\s*(?:<[^\[]*>)?\s*\[\s*([^\]]+)\]", code)
                         if ms:
                             ident = ms.group(1).strip().split("::")[-1]
                     for look in ([] if ident else self.lines[n - 1:n + 6]):
@@ -368,6 +368,28 @@ def run_replay(args, timeout=600):
 
 
 SIDE_TABLE_PROPS = ("C22", "C05")
+
+
+def dialect_witness_check(fnspecs):
+    """The dispatch unit DIALECT declares every operator function as an external witness carrying the generic operator
+    contract op_generic.  That contract is PROVED per operator in the operator's home unit (a clause labelled *.generic whose
+    text is op_generic(old, final, r)); this check ties the two: every witness must have such a home clause, otherwise the
+    generic contract of that operator is an unlisted assumption."""
+    p = os.path.join(VERIF, "contracts", "dialect_ops.inc")
+    if not os.path.exists(p):
+        return {"checked": 0, "missing": []}
+    names = re.findall(r"^fn (op_[A-Za-z0-9_]+)\(", open(p).read(), re.M)
+    missing = []
+    for nme in names:
+        homes = [fs for path, fs in fnspecs.items() if path.split("::")[-1] == nme]
+        ok = False
+        for fs in homes:
+            for c in VS.split_clauses(fs.spec):
+                if c[1] and any(l.endswith(".generic") for l in c[1]) and re.sub(r"\s+", "", c[2]).startswith("op_generic(&*old(") :
+                    ok = True
+        if not ok:
+            missing.append(nme)
+    return {"checked": len(names), "missing": missing}
 
 
 def precomputed_table_check():
@@ -632,6 +654,12 @@ def check_property(pid, tier="quick", seed=0):
             side_violation = side
         elif side.get("error"):
             problems.append("precomputed-hash table check: " + side["error"])
+
+    if any(r.name.split("__")[0] == "DIALECT" for r in live):
+        dw = dialect_witness_check(fnspecs)
+        side_results.append({"check": "dialect-witnesses", **dw})
+        if dw["missing"]:
+            problems.append("operator witnesses of unit DIALECT without a proved generic clause in their home unit: " + ", ".join(dw["missing"]))
 
     # ---- violations ---------------------------------------------------------------------------
     rc = 1 if any(l.startswith("VIOLATION") for l in kani_lines) else 0
